@@ -122,4 +122,39 @@ variant('b7-fetch-worker-count-clamped-in-run', [(FET, '''	for w, cnt := 0, f.op
 		cnt = 1 // Always fetch with at least one worker.
 	}
 	for w := 0; w < cnt; w++ {''')])
+variant('b8-worker-closure-captures-loop-variable', [(FET, """		go func(idx int) {
+			defer wg.Done()
+			klog.V(1).Infof("%s: Fetcher worker %d starting...", f.uri, idx)
+			f.runWorker(ctx, ranges, fn)
+			klog.V(1).Infof("%s: Fetcher worker %d finished", f.uri, idx)
+		}(w)""", """		go func() {
+			defer wg.Done()
+			klog.V(1).Infof("%s: Fetcher worker %d starting...", f.uri, w)
+			f.runWorker(ctx, ranges, fn)
+			klog.V(1).Infof("%s: Fetcher worker %d finished", f.uri, w)
+		}()""")])
+variant('n1-defaults-through-helper-alarms-in-older-rule-R9', [(CTL, """			ParallelFetch: int(cfg.NumFetchers),""", """			ParallelFetch: workersOrOne(cfg.NumFetchers),"""),
+    (CTL, """		Submitters:         int(cfg.NumSubmitters),""", """		Submitters:         workersOrOne(cfg.NumSubmitters),"""),
+    (CTL, """	if cfg.NumFetchers == 0 {
+		opts.ParallelFetch = 1
+	}
+	if cfg.NumSubmitters == 0 {
+		opts.Submitters = 1
+	}
+	return opts
+}""", """	return opts
+}
+
+// workersOrOne returns the configured number of workers, or one if the number
+// is not specified.
+func workersOrOne(n int32) int {
+	if n == 0 {
+		return 1
+	}
+	return int(n)
+}""")])
+variant('v12-default-triggered-by-the-wrong-field', [(CTL, """	if cfg.NumFetchers == 0 {
+		opts.ParallelFetch = 1""", """	if cfg.NumSubmitters == 0 {
+		opts.ParallelFetch = 1""")])
+variant('v13-guard-around-fan-out-off-by-one', [(CTL, """	for w, cnt := 0, c.opts.Submitters; w < cnt; w++ {""", """	for w, cnt := 0, c.opts.Submitters; cnt > 1 && w < cnt; w++ {""")])
 print('ok')
